@@ -175,19 +175,24 @@ Definition image_controlled_peek (l : log) (im : image) (ipos limitpos : Z) (sc 
   let '(rp, ds) := ploop (l_tlen l) limitpos fs sc off ipos off ipos in
   Ok (Ok rp, ds, [], im).
 
-(* ---- block_poll ----
-     limit_offset = min(term_offset + block_length_limit, capacity)          (i32 addition)
+(* i32::saturating_add *)
+Definition sat_add32 (a b : Z) : Z := Z.max (- two31) (Z.min (two31 - 1) (a + b)).
+
+(* ---- block_poll (after fix C05-block-poll-limit: the sum saturates; before, `term_offset + block_length_limit` panicked in
+   a debug build and wrapped negative in a release build as soon as it reached 2^31, so that block_poll(handler, i32::MAX)
+   never delivered anything unless the position was at the start of a term) ----
+     limit_offset = min(term_offset.saturating_add(block_length_limit), capacity)
      resulting_offset = scan(term_buffer, term_offset, limit_offset); length = resulting_offset - term_offset
      if resulting_offset > term_offset { term_id = get::<i32>(term_offset + TERM_ID_FIELD_OFFSET);
          handler(term_buffer, term_offset, length, session_id, term_id); set_ordered(position + length) }
-   the block handed over is recorded as a delivery of the first frame at term_offset, the length is the return value *)
+   the block handed over is recorded as a delivery of the first frame at term_offset, the length is the return value.
+   (`m` is kept as a parameter: no operation of the repaired function depends on the build mode.) *)
 Definition image_block_poll (m : mode) (l : log) (im : image) (blimit : Z) : outcome call_result :=
   if im_closed im then Ok (Ok 0, [], [], im) else
   let pos := im_pos im in
   v <- sel l pos ;;
   let '(fs, off) := v in
-  s <- add32 m off blimit ;;
-  let lo := Z.min s (l_tlen l) in
+  let lo := Z.min (sat_add32 off blimit) (l_tlen l) in
   let ro := term_scan fs off lo in
   let len := ro - off in
   if ro >? off then
